@@ -2,9 +2,11 @@ package rules
 
 import (
 	"fmt"
+	"go/ast"
 	"go/token"
 	"go/types"
 	"sort"
+	"strconv"
 	"strings"
 
 	"aghverif/core"
@@ -893,10 +895,17 @@ func c11OptionalAuth(c *Ctx) {
 		for _, call := range core.Calls(ipr) {
 			if call.Key == "path.Match" {
 				s, ok := core.ConstString(call.Arg(0))
-				if !ok {
+				if ok {
+					pats = append(pats, s)
+					continue
+				}
+				// the patterns may sit in a package-level table that is ranged over: the pattern is then a field of
+				// an element of that table, and the table's literal lists them all; nothing else may write the table
+				tbl := c11TablePatterns(p, call.Arg(0))
+				if tbl == nil {
 					okShape = false
 				}
-				pats = append(pats, s)
+				pats = append(pats, tbl...)
 			}
 		}
 		sort.Strings(pats)
@@ -1314,5 +1323,76 @@ func handlerLeaves(v ssa.Value) (out []handlerLeaf) {
 		out = append(out, handlerLeaf{x, pred})
 	}
 	walk(v, nil, 0)
+	return out
+}
+
+// c11TablePatterns resolves a pattern that is read from a field of an element
+// of a package-level slice variable to the string literals that field has in
+// the variable's initialiser; nil if the shape is different or the variable is
+// assigned anywhere else.
+func c11TablePatterns(p *core.Prog, v ssa.Value) []string {
+	fr, owner, ok := core.LoadedField(core.ResolveCellLoad(v))
+	if !ok {
+		return nil
+	}
+	var g *ssa.Global
+	for _, o := range core.Origins(owner, core.ProvOpts{Prog: p}) {
+		if o.Kind == "global" {
+			if gg, isG := o.Val.(*ssa.UnOp); isG {
+				g, _ = gg.X.(*ssa.Global)
+			} else if gg, isG := o.Val.(*ssa.Global); isG {
+				g = gg
+			}
+		}
+	}
+	if g == nil || g.Pkg == nil {
+		return nil
+	}
+	// no store to the variable outside the package initialiser
+	for _, fn := range p.ModFns {
+		if fn.Name() == "init" || strings.HasPrefix(fn.Name(), "init#") {
+			continue
+		}
+		for _, b := range fn.Blocks {
+			for _, in := range b.Instrs {
+				if st, isSt := in.(*ssa.Store); isSt && st.Addr == ssa.Value(g) {
+					return nil
+				}
+			}
+		}
+	}
+	pk := p.AllPkg[g.Pkg.Pkg.Path()]
+	if pk == nil {
+		return nil
+	}
+	lit := core.PkgVarLit(pk, g.Name())
+	if lit == nil {
+		return nil
+	}
+	var out []string
+	for _, el := range lit.Elts {
+		cl, isCL := el.(*ast.CompositeLit)
+		if !isCL {
+			return nil
+		}
+		found := false
+		for _, kv := range cl.Elts {
+			kve, isKV := kv.(*ast.KeyValueExpr)
+			if !isKV {
+				return nil
+			}
+			if id, isID := kve.Key.(*ast.Ident); isID && id.Name == fr.Field {
+				if bl, isBL := kve.Value.(*ast.BasicLit); isBL && bl.Kind == token.STRING {
+					if sv, err := strconv.Unquote(bl.Value); err == nil {
+						out = append(out, sv)
+						found = true
+					}
+				}
+			}
+		}
+		if !found {
+			return nil
+		}
+	}
 	return out
 }
